@@ -793,7 +793,7 @@ pub fn run_conn_with(cx: Ctx, plan: &Plan, knobs: Knobs, o: &ConnOpts, init: imp
                 }
                 break "quiescent";
             }
-            RunEnd::StepCap => break "step_cap",
+            RunEnd::StepCap | RunEnd::Paused => break "step_cap",
         }
     };
     if let Some(i) = ex.tasks.iter().position(|t| t.name == "shutdown") { shutdown_task = Some(i); }
